@@ -4,7 +4,7 @@ CONSTANTS
     Workers <- MCWorkers
     WorkerMaps <- MCWorkerMaps
     CfgSpace <- MCCfgQuick
-    MaxClock = 4
+    MaxClock = 8
     MaxApi = 3
     MaxLast = 1
     TrackRan = FALSE
